@@ -115,4 +115,24 @@ def linkBound (byIntersection : Bool) (parent child : List String) : Option (Lis
   if byIntersection then some (intersectBound parent child)
   else if narrows parent child then some child else none
 
+/-! ## 6. remembering read decisions within one request
+
+A gate that remembers `may_read` under a key `κ` of the element and reuses it for later elements with the
+same key. `memoReads` is that gate run over the elements a request loads, in load order. -/
+
+def cacheGet {K C : Type} [DecidableEq K] (cache : List (K × Option C)) (k : K) : Option (Option C) :=
+  (cache.find? (fun kv => kv.1 = k)).map (·.2)
+
+/-- The decisions a memoising gate hands out for the resources `rs`, in order, starting from `cache`. -/
+def memoReads {R K C : Type} [DecidableEq K] (κ : R → K) (read : R → Option C) :
+    List (K × Option C) → List R → List (Option C)
+  | _, [] => []
+  | cache, r :: rs =>
+    match cacheGet cache (κ r) with
+    | some known => known :: memoReads κ read cache rs
+    | none => read r :: memoReads κ read ((κ r, read r) :: cache) rs
+
+/-- What authorization reads of an element *except* its id: the key of the class-level memo. -/
+def classKey (r : Resource) : String × String × String := (r.kind, r.schemaRef, r.classification)
+
 end AndaVerif.Authz
